@@ -199,7 +199,10 @@ impl TcpFlow {
 
         let mut sorted_data = data.clone();
 
-        sorted_data.sort_by_key(|tcp_data| tcp_data.sequence);
+        // Sequence numbers live in a wrapping 32-bit space: order the segments by their signed
+        // offset from the first stored segment so that a stream crossing 2^32 stays in order.
+        let base = data.first().map(|tcp_data| tcp_data.sequence).unwrap_or(0);
+        sorted_data.sort_by_key(|tcp_data| tcp_data.sequence.wrapping_sub(base) as i32);
 
         let mut full_data = Vec::new();
         for tcp_data in sorted_data {
